@@ -6,6 +6,7 @@ import (
 	"os"
 	"reflect"
 	"regexp"
+	"sort"
 	"strings"
 
 	"verif/internal/esgen"
@@ -42,7 +43,19 @@ func init() {
 // ---------------------------------------------------------------------------------------------
 // field-by-field diff
 
-var hevcIdxRe = regexp.MustCompile(`\[[0-9]+\]`)
+var hevcIdxRe = regexp.MustCompile(`\[[0-9]+\]|\{[^}]*\}`)
+
+// hevcKeyStr prints a map key so that the order of the printed forms is a total order (numbers zero-padded).
+func hevcKeyStr(k reflect.Value) string {
+	switch k.Kind() {
+	case reflect.Uint, reflect.Uint8, reflect.Uint16, reflect.Uint32, reflect.Uint64:
+		return fmt.Sprintf("%020d", k.Uint())
+	case reflect.Int, reflect.Int8, reflect.Int16, reflect.Int32, reflect.Int64:
+		return fmt.Sprintf("%+021d", k.Int())
+	default:
+		return fmt.Sprint(k.Interface())
+	}
+}
 
 // hevcDiffOpts: Skip holds field paths (indices stripped) that are not compared; Alt holds, per full
 // path (with indices), an alternative accepted value (the standard's inferred value of an absent element).
@@ -52,7 +65,7 @@ type hevcDiffOpts struct {
 }
 
 // hevcDiff returns the path of the first field where got differs from want ("" if none). nil and empty
-// slices are equal; pointers are compared by pointee.
+// slices (and maps) are equal; pointers are compared by pointee; map entries appear in paths as {key}.
 func hevcDiff(want, got interface{}, o *hevcDiffOpts) (path, w, g string) {
 	return hevcDiffValue("", reflect.ValueOf(want), reflect.ValueOf(got), o)
 }
@@ -98,8 +111,22 @@ func hevcDiffValue(p string, w, g reflect.Value, o *hevcDiffOpts) (string, strin
 		}
 		return "", "", ""
 	case reflect.Map:
+		// nil and empty maps are equal (as for slices); otherwise the same keys with equal values. Keys are
+		// visited in the order of their printed form (no dependence on map iteration order).
 		if w.Len() != g.Len() {
 			return p + ".len", fmt.Sprint(w.Len()), fmt.Sprint(g.Len())
+		}
+		keys := w.MapKeys()
+		sort.Slice(keys, func(i, j int) bool { return hevcKeyStr(keys[i]) < hevcKeyStr(keys[j]) })
+		for _, k := range keys {
+			q := fmt.Sprintf("%s{%s}", p, hevcKeyStr(k))
+			gv := g.MapIndex(k)
+			if !gv.IsValid() {
+				return q, "present", "missing"
+			}
+			if dp, dw, dg := hevcDiffValue(q, w.MapIndex(k), gv, o); dp != "" {
+				return dp, dw, dg
+			}
 		}
 		return "", "", ""
 	default:
